@@ -6,6 +6,6 @@ CONSTANTS
 INIT Init
 NEXT Next
 VIEW view
-INVARIANTS TypeOK GraphAcyclic InitOrder InitExactlyNeeded InitProgress ProjectionLemma
+INVARIANTS TypeOK GraphAcyclic TrConsistent InitOrder InitExactlyNeeded InitProgress ProjectionLemma
 PROPERTIES CycleRejected
 CHECK_DEADLOCK FALSE
